@@ -16,6 +16,7 @@ for d in sorted(glob.glob('/verif/seeded/*')):
     out = [l for l in r.stdout.splitlines() if not l.startswith('WARNING')]
     first = out[0] if out else ('no output: ' + r.stderr[-200:])
     m = json.load(open(d + '/meta.json'))
+    m.setdefault('first_verdict', m.get('quick_check_verdict'))
     m['quick_check_verdict'] = first.split(' ')[0]
     m['quick_check_output_tail'] = [l.strip()[:300] for l in out[-4:]]
     m['swept_at_verif_commit'] = head
